@@ -53,7 +53,7 @@ CHECKS = {
    "approximate graph answers outside the exact regimes are not compared across instances; fsync/commit of bbolt trusted; rejected batches are not applied to memstore (as the property scopes it)",
    "exhaustive enumeration of write histories in lock-step over five configurations of the real code (differential + reference model)", "DESIGN.md §4 C08"),
  "C11": (True, "schedx", "model_checking",
-   "Stateless preemption-bounded search over ALL interleavings of two (thorough: also three) transaction programs on the real cache manager: manager.go is compiled with its sync / sync/atomic imports redirected (build overlay generated from the working tree) to cooperative shims, so every Lock/RLock/TryRLock/Unlock and atomic.Bool operation is a scheduling point; 12 transaction shapes x evictor x manager size {-1,0,1,10} x initial map; quick: 936 pair programs with <=1 preemption and 72 with <=2 (3.2M complete executions), thorough: all pairs <=2, triples <=1, core <=3. Monitors: writer isolation, no uncommitted state observed, scrapped caches never handed out, shared caches reflect committed storage, deadlock freedom, final write+commit probe on every cache.",
+   "Stateless preemption-bounded search over ALL interleavings of two (thorough: also three) transaction programs on the real cache manager: manager.go is compiled with its sync / sync/atomic imports redirected (build overlay generated from the working tree) to cooperative shims, so every Lock/RLock/TryRLock/Unlock and atomic.Bool operation is a scheduling point; 13 transaction shapes (incl. the same cache written twice) x evictor x manager size {-1,0,1,10} x initial map; quick: 1092 pair programs with <=1 preemption and 72 with <=2 (3.4M complete executions), thorough: all pairs <=2, triples <=1, core <=3. Monitors: writer isolation, no uncommitted state observed, scrapped caches never handed out, shared caches reflect committed storage, deadlock freedom, final write+commit probe on every cache.",
    "storage is a stand-in (per-cache committed version + per-shard single-writer token); sequentially consistent interleavings of the shimmed operations; usage protocol of the shard (each With returns before Commit)",
    "stateless DFS over schedules of the real code under a controlled scheduler, iterative preemption bounding", "DESIGN.md §4 C11"),
  "C07": (True, "faultx", "fault_enumeration",
